@@ -150,9 +150,9 @@ class CTMCUniformGrid(CTMCGrid):
         )
         nb_of_points_left = int(abs(l) / h)
         nb_of_points_right = int(r / h)
-        if nb_of_points_left < 2 or nb_of_points_right < 1:
+        if nb_of_points_left < 2 or nb_of_points_right < 2:
             raise ValueError(
-                "h is too large for the truncation bounds: -h and +h would not both be states of the grid"
+                "h is too large for the truncation bounds: -h, +h and both bounds would not all be states of the grid"
             )
         if nb_of_points_left + nb_of_points_right > 1e8:
             raise ValueError(
